@@ -103,7 +103,8 @@ def oracle(acc, text, case, kern_only_opts):
     acc.count('traces')
     if not raised and sorted(singles) != sorted(alldata):
         acc.violation(Viol('partition', 'single-measure-exports-do-not-contain-every-data-line-exactly-once', case, len(alldata), len(singles)))
-    for a, b in [(-1, 1), (-5, M), (1, M + 1), (1, M + 7), (2, 1), (M, M - 1), (-1, None), (None, M + 1)]:
+    reversed_pairs = [(b_, a_) for a_ in range(1, M + 1) for b_ in range(a_ + 1, M + 1)] if M >= 10 else []     # every end-before-start pair of a long score
+    for a, b in [(-1, 1), (-5, M), (1, M + 1), (1, M + 7), (2, 1), (M, M - 1), (-1, None), (None, M + 1), (M + 1, M + 1), (1, 10 * M + 1)] + reversed_pairs:
         if b == 0 or (a == 2 and M < 2):
             continue
         acc.count('transitions')
@@ -137,6 +138,58 @@ def check(acc, job):
         oracle(acc, text, case, {})
     else:
         oracle(acc, text, dict(case, options="spine_types=['**kern']"), KERN_OPTS)
+
+
+def check_huge(acc, seed):
+    """a score of 300 measures (three-digit measure indexes): selected ranges, boundaries of every power of two and of ten"""
+    rows = ['**kern', '*clefG2']
+    for k in range(1, 301):
+        rows += [f'={k}', f"4{'cdefgab'[k % 7]}", f"8{'gabcdef'[k % 7]}L"]
+    rows += ['==', '*-']
+    text = '\n'.join(rows) + '\n'
+    case = {'text': '(300-measure score built by check_huge)', 'headers': ['**kern'], 'seq': ['huge'], 'seed': seed}
+    doc, _ = kp.loads(text)
+    M = doc.measures_count()
+    acc.count('evaluations')
+    if M != 301 or list(doc) != list(range(1, 302)):
+        acc.violation(Viol('iteration', 'does-not-yield-1-to-M', case, 301, [M, list(doc)[:12]]))
+        return
+    full = kp.dumps(doc).split('\n')[:-1]
+    marks = sorted({1, 2, 9, 10, 11, 12, 99, 100, 101, 110, 111, 112, 127, 128, 129, 199, 200, 255, 256, 257, 258, 299, 300, 301})
+    pairs = [(a, a) for a in marks] + [(a, b) for a in marks for b in marks if a < b and (b - a <= 3 or a in (1, 11, 111) or b in (112, 257, 301))]
+    for a, b in pairs:
+        acc.count('transitions')
+        acc.nontriv(('huge', a, b))
+        c2 = dict(case, from_measure=a, to_measure=b, M=M)
+        try:
+            o = kp.dumps(doc, from_measure=a, to_measure=b).split('\n')[:-1]
+        except Exception as e:  # noqa
+            acc.violation(Viol('range', 'raises', c2, 'text', f'{type(e).__name__}: {str(e)[:80]}'))
+            continue
+        got = [l for l in o if is_data(l)]
+        exp = [l for k in range(a, min(b, 300) + 1) for l in (f"4{'cdefgab'[k % 7]}", f"8{'gabcdef'[k % 7]}L")] if a <= 300 else []
+        if got != exp:
+            acc.violation(Viol('range', 'data-lines-are-not-those-of-the-measures', c2, exp[:6], got[:6]))
+        obars = [l for l in o if is_bar(l)]
+        if not obars or obars[0] != ('=' if a <= 300 else '==') or (b < 301 and obars[-1] not in ('=', '==')):
+            acc.violation(Viol('range', 'opening-barline-missing-or-wrong', c2, '=', obars[:1]))
+    for a, b in [(b_, a_) for a_, b_ in pairs if a_ < b_] + [(1, 302), (302, 302), (301, 300), (11, 1), (111, 1), (112, 11), (12, 1)]:
+        acc.count('transitions')
+        try:
+            kp.dumps(doc, from_measure=a, to_measure=b)
+            acc.violation(Viol('out-of-range', 'accepted-instead-of-ValueError', dict(case, from_measure=a, to_measure=b, M=M), 'ValueError', 'returned'))
+        except ValueError:
+            pass
+        except Exception as e:  # noqa
+            acc.violation(Viol('out-of-range', 'wrong-exception-type', dict(case, from_measure=a, to_measure=b, M=M), 'ValueError', type(e).__name__))
+    if list(doc) != list(range(1, 302)):
+        acc.violation(Viol('iteration', 'does-not-yield-1-to-M', case, 301, list(doc)[:12]))
+
+
+def _huge_job(seed):
+    acc = Acc()
+    check_huge(acc, seed)
+    return acc
 
 
 def _job(jobs):
@@ -183,11 +236,15 @@ def run(ctx):
     ctx.assumptions = ['a data line = a line none of whose cells starts with * ! or =; the oracle is indifferent to whether an empty leading measure is numbered']
     jobs = jobs_for(ctx.tier, ctx.seed)
     jobs += [(j[0], j[1], j[2], 1 + k % 4) for k, j in enumerate(jobs) if k % 7 == 0]   # blank-line variants
+    ctx.pmap(_huge_job, [ctx.seed], workers=1)
     longs = D.long_kern_docs(ctx.seed) + [(['**kern', '**text'], j[1], ctx.seed) for j in D.long_kern_docs(ctx.seed, reps=(4,))[:1]]
     ctx.pmap(_job, [[j] for j in longs] + list(X.chunks(jobs, 100)), chunksize=1)
 
 
 def replay(case):
     acc = Acc()
+    if case.get('seq') == ['huge']:
+        check_huge(acc, case.get('seed', 0))
+        return acc.viol
     check(acc, (case['headers'], case['seq'], case['seed'], case.get('blank_at')))
     return acc.viol
